@@ -471,7 +471,7 @@ _p3 = Part("general-multi-signer", h_multi_signer, split_depth=2)
 _p3.single_bucket_ok = True
 PARTS = [
     Part("keys-declaring-their-operation", h_declared, split_depth=2),
-    Part("thread-schedules", h_threads, bound={"quick": 1, "thorough": 2}, split_depth=3, budget={"quick": 200, "thorough": 3000}, engine="E3"),
-    Part("roundtrip", h_roundtrip, bound={"quick": 0, "thorough": 0}, split_depth=2, budget={"quick": 120, "thorough": 1500}),
+    Part("thread-schedules", h_threads, bound={"quick": 1, "thorough": 2}, split_depth=3, budget={"quick": 2000, "thorough": 3000}, engine="E3"),
+    Part("roundtrip", h_roundtrip, bound={"quick": 0, "thorough": 0}, split_depth=2, budget={"quick": 1200, "thorough": 1500}),
     _p2, _p3,
 ]
